@@ -129,9 +129,9 @@ def name_case(task):
         if ok:
             model[target] = b'l0\nCHANGED\nl2\nl3\n'
     elif kind == 'create':
-        ok = not exists
-        if ok:
-            model[target] = b'c0\nc1\n'
+        # both names are real: on an existing file this is a context-free hunk adding lines at the very top
+        ok = True
+        model[target] = b'c0\nc1\n' + (BODY if exists else b'')
     else:
         ok = exists
         if ok:
